@@ -26,6 +26,10 @@ pub struct Params {
     pub apr: String,
     pub unbonding: u64,
     pub commissions: Vec<String>,
+    /// per validator: maximum commission and maximum daily change (informational fields of the validator record;
+    /// rewards are governed by the commission itself, whatever these say)
+    #[serde(default)]
+    pub max_commissions: Vec<(String, String)>,
     /// the bonded denomination (staking parameter, fixed at setup)
     #[serde(default = "default_denom")]
     pub denom: String,
@@ -105,7 +109,8 @@ impl Inst {
                 .setup(storage, StakingInfo { bonded_denom: p.denom.clone(), unbonding_time: p.unbonding, apr: Decimal::from_str(&p.apr).unwrap() })
                 .unwrap();
             for (i, c) in p.commissions.iter().enumerate() {
-                let v = Validator::create(format!("validator{}", i), Decimal::from_str(c).unwrap(), Decimal::percent(100), Decimal::percent(1));
+                let (mc, mr) = p.max_commissions.get(i).cloned().unwrap_or(("1".into(), "0.01".into()));
+                let v = Validator::create(format!("validator{}", i), Decimal::from_str(c).unwrap(), Decimal::from_str(&mc).unwrap(), Decimal::from_str(&mr).unwrap());
                 router.staking.add_validator(api, storage, &block, v).unwrap();
             }
         });
@@ -969,13 +974,14 @@ pub fn slug(s: &str) -> String {
 // --- generator -----------------------------------------------------------------------------------
 
 pub fn gen_params(rng: &mut Rng) -> Params {
-    let apr = rng.pick(&["0.1", "0.1", "0.075", "1", "0.33"]).to_string();
+    let apr = rng.pick(&["0.1", "0.1", "0.075", "1", "0.33", "0", "0.000000000000000001"]).to_string();
     let unbonding = *rng.pick(&[60u64, 60, 1, 3600, 0]);
     let n = rng.range(2, 3) as usize;
     let pool = ["0", "0.1", "0.33", "0.05", "1", "0.5"];
     let commissions = (0..n).map(|_| rng.pick(&pool).to_string()).collect();
     let denom = rng.pick(&["TOKEN", "TOKEN", "ustake"]).to_string();
-    Params { apr, unbonding, commissions, denom }
+    let max_commissions = (0..n).map(|_| (rng.pick(&["1", "1", "0.2", "0", "0.05"]).to_string(), rng.pick(&["0.01", "0", "1"]).to_string())).collect();
+    Params { apr, unbonding, commissions, max_commissions, denom }
 }
 
 fn gen_amount(rng: &mut Rng, reference: u128) -> u128 {
@@ -1146,7 +1152,7 @@ pub fn run_case(case: &Case, with_twin: bool, rep: &mut Report) -> Vec<Fail> {
 
 /// Constructive histories: the scenarios of DESIGN.md section 6 (D1, D6, D7) and the basic flows.
 pub fn templates() -> Vec<(String, Case)> {
-    let p = Params { apr: "0.1".into(), unbonding: 60, commissions: vec!["0.1".into(), "0".into()], denom: DENOM.to_string() };
+    let p = Params { apr: "0.1".into(), unbonding: 60, commissions: vec!["0.1".into(), "0".into()], max_commissions: vec![], denom: DENOM.to_string() };
     let v0 = "validator0".to_string();
     let v1 = "validator1".to_string();
     let t = DENOM.to_string();
